@@ -108,8 +108,10 @@ func c10Engine(c *lab.Ctx) {
 							cs.key, cs.plan = "dead", "ok"
 						case 3:
 							cs.key, cs.plan = "zzz-noroute", "ok"
-						case 4, 5, 6:
+						case 4, 5:
 							cs.key, cs.plan = "retry", c03RetryPlans[crng.Intn(len(c03RetryPlans))]
+						case 6:
+							cs.key, cs.plan = "retry0", c03Retry0Plans[crng.Intn(len(c03Retry0Plans))]
 						default:
 							cs.key, cs.plan = "fast", c03Plans[crng.Intn(len(c03Plans))]
 						}
